@@ -269,6 +269,11 @@ func (c *VCtx) recordRet(st *State, f *Term, v Val) {
 
 // spawn handles "go f(args)": the callee's precondition must hold; the callee is verified separately.
 func (c *VCtx) spawn(fr *Frame, st *State, cc *ssa.CallCommon, fv *FnVal, args []Val) {
+	c.lmSpawn()
+	if fr.contract != nil {
+		c.goCount++
+		c.runGhost(fr, st, fr.contract, fmt.Sprintf("go %d", c.goCount), nil)
+	}
 	// cells captured by a spawned closure are shared from now on
 	for _, b := range append(append([]Val{}, fv.Binds...), args...) {
 		if t, ok := b.(*Term); ok {
